@@ -1,6 +1,6 @@
 """C18 — every command finds the same store, and init never hides data."""
 import json, os, shutil, tempfile, itertools
-from .. import common, framework, fndiff, cmdrun, gen, oracles
+from .. import explore2, common, framework, fndiff, cmdrun, gen, oracles
 
 
 def mk_project(ctx, plans=True, events=False, lock=True):
@@ -220,6 +220,12 @@ def run(ctx):
     init_first(ctx)
     both_files_life(ctx)
     file_layouts(ctx)
+    # a store whose log still has the old name, two processes: a writer that settled on a log *name* before it got the lock while `compact` or
+    # `plan` rewrites the log in between — afterwards every command must still find one and the same store, with the writer's acknowledged item in it
+    r = gen.Rng(ctx.seed * 1000003 + 18)
+    for i in range(3 if ctx.quick else 40):
+        explore2.explore(ctx, "C18", r.fork(), kindsA=(["new", "set+state", "claim_oldest", "sequence"][i % 4],), kindsB=("compact", "plan"),
+                         max_points=(6 if ctx.quick else 40), state_cmds=6, legacy=True)
     ctx.cov["exhaustive"] = True
     ctx.cov["rule"] = ("generated path strings → Go Clean/Dir/Base/Join/resolveErgoDir (real temp tree, chdir) vs model; then exhaustively: 5 working directories × 7 target directories "
                        "(project, nested project, sub-directories, the .ergo directories themselves) × every --dir spelling (none, absolute, trailing slash, relative, ./relative): "
@@ -228,5 +234,7 @@ def run(ctx):
 
 
 def replay(ctx, doc):
+    if explore2.is_schedule_replay(doc):
+        return explore2.replay(ctx, doc)
     print(json.dumps(doc["replay"], indent=1)[:1500])
     return 0
